@@ -19,6 +19,7 @@ func init() {
 			"the meta page goes to slot txid%2 and is checksummed after its last modification; db.meta() picks the valid meta with the larger txid. " +
 			"NOT decided: that the page set written is the right one, torn-sector behaviour, what recovery reads after a crash (value-level; see C11 for checksum coverage), NoSync caveats. Round 3: no page can be allocated between the decision to grow the file and tx.write (the truncate+fsync covers every page of the commit).",
 		Run: func(c *Ctx) {
+			ruleOptionsWiredByName(c, "C01.R12") // NoSync / NoGrowSync are the documented exclusions: no other option may end up in those switches
 			c01R1(c, "C01.R1")
 			ruleSyncAfterWrite(c, "C01.R2")
 			ruleFdatasyncSibling(c, "C01.R3")
